@@ -5,6 +5,8 @@ DS == [ tall |-> << <<1,0,2>>, <<3,1,0>>, <<0,2,1>>, <<2,2,3>>, <<4,0,1>>, <<1,3
         wide |-> << <<1,0,2,3,1>>, <<3,1,0,2,0>>, <<0,2,1,1,4>>, <<2,2,3,0,1>> >>,
         square |-> << <<2,0,1,3>>, <<0,1,4,1>>, <<3,2,0,0>>, <<1,1,2,5>> >>,
         zeromean |-> << <<1,-2,0>>, <<-1,2,0>>, <<3,1,2>>, <<0,4,-1>>, <<2,-1,1>>, <<-2,0,3>> >>,
-        tall2 |-> << <<5,1>>, <<2,2>>, <<0,4>>, <<3,3>>, <<1,0>>, <<4,5>> >> ]
-DSQuick == [k \in {"tall2", "wide", "zeromean", "square"} |-> DS[k]]
+        tall2 |-> << <<5,1>>, <<2,2>>, <<0,4>>, <<3,3>>, <<1,0>>, <<4,5>> >>,
+        \* a feature that is identically zero (planar shapes, a padded column): the mean has an exactly-zero ENTRY but is not zero
+        zerocol |-> << <<1,0,2>>, <<3,0,0>>, <<0,0,1>>, <<2,0,3>>, <<4,0,1>>, <<1,0,4>> >> ]
+DSQuick == [k \in {"tall2", "wide", "zeromean", "square", "zerocol"} |-> DS[k]]
 =============================================================================
